@@ -59,6 +59,10 @@ Proof. vm_compute. reflexivity. Qed.
 Lemma hint_loop_over_candidates : hint_loop_okb Gen_Members.add_loops Gen_Members.hint_loops = true.
 Proof. vm_compute. reflexivity. Qed.
 
+(* nothing in the class configures the process-wide warnings / logging machinery *)
+Lemma add_configures_nothing : configures_nothingb Gen_Members.state_calls = true.
+Proof. vm_compute. reflexivity. Qed.
+
 (* ... and the only test involving the hint is the equality `hint == t.get_name()` *)
 Lemma hint_test_is_equality : hint_test_okb Gen_Members.hint_tests = true.
 Proof. vm_compute. reflexivity. Qed.
